@@ -128,13 +128,16 @@ def _validity_intervals(ctx, chk, wl, wflow, mod, gridp, closed, base_name, coln
             rng = g.iter
             try:
                 if isinstance(g.target, ast.Name) and isinstance(rng, ast.Call) and isinstance(rng.func, ast.Name) and rng.func.id == "range" and len(rng.args) == 3 \
-                        and py_poly(rng.args[0]).const_or_none() == 0 and py_poly(rng.args[2]).const_or_none() == 2 \
                         and isinstance(e, ast.Subscript) and isinstance(e.value, ast.Name):
+                    r0, r2 = py_poly(rng.args[0]).const_or_none(), py_poly(rng.args[2]).const_or_none()
                     off = (py_poly(e.slice) - Poly.atom(g.target.id)).const_or_none()
-                    if off in (0, 1) and ast.unparse(rng.args[1]).replace(" ", "") == "len(%s)" % e.value.id:
-                        from ..seqsym import stride2
-                        base = seq_of(env, e.value)
-                        return stride2(base, int(off)) if base is not None else None
+                    if r0 is not None and r2 is not None and off is not None and ast.unparse(rng.args[1]).replace(" ", "") == "len(%s)" % e.value.id:
+                        if r0 == 0 and r2 == 2 and off in (0, 1):
+                            from ..seqsym import stride2
+                            base = seq_of(env, e.value)
+                            return stride2(base, int(off)) if base is not None else None
+                        # readable, and not "every second element from 0 / from 1"
+                        return [("one", "%s[%s] for %s in range(%s, len, %s)" % (e.value.id, ast.unparse(e.slice), g.target.id, r0, r2))]
             except NotAlgebraic:
                 return None
         return None
@@ -153,8 +156,15 @@ def _validity_intervals(ctx, chk, wl, wflow, mod, gridp, closed, base_name, coln
                     and isinstance(dv.generators[0].target, ast.Name):
                 iv = dv.generators[0].target.id
                 txt = ast.unparse(dv.elt.elts[lb.path[0]]).replace(" ", "")
+                try:
+                    lp_ = py_poly(dv.elt.elts[lb.path[0]], callname=lambda c: None)
+                except NotAlgebraic:
+                    lp_ = None
                 if txt in ("%s//2+1" % iv, "1+%s//2" % iv):
                     first_label = 1
+                elif isinstance(dv.elt.elts[lb.path[0]], ast.BinOp) and "//" in txt and iv in txt and any(ch.isdigit() for ch in txt):
+                    # some other arithmetic on the pair index: readable, and not k
+                    first_label = "%s for pair index %s = 0, 2, 4, ..." % (txt, iv)
                 elif txt == "%s//2" % iv:
                     first_label = 0
                 elif isinstance(dv.elt.elts[lb.path[0]], ast.Constant):
